@@ -7,7 +7,7 @@ dst = os.path.join(os.path.dirname(os.path.dirname(os.path.abspath(__file__))), 
 os.makedirs(dst, exist_ok=True)
 for f in glob.glob(src + '/patch.diff') + glob.glob(src + '/demo.*') + glob.glob(src + '/README.md'):
     shutil.copy(f, dst)
-json.dump({'property': c.upper(), 'source': 'independent sub-agent given only the property text', 'needs': needs, 'breaks': breaks,
+json.dump({'property': c[:3].upper(), 'source': 'independent sub-agent given only the property text', 'needs': needs, 'breaks': breaks,
            'verified': 'tools/verify_seed.sh (patch applies to a scratch copy of /repo, pinned suite passes with it, demo fails on the patched copy and passes on /repo)'},
           open(os.path.join(dst, 'meta.json'), 'w'), indent=1)
 print(dst)
